@@ -14,10 +14,15 @@ VARIABLE alt
 (* outbound messages with exactly the addresses its peer announced.                                                   *)
 VARIABLE fwd
 NoFwd == [s \in Station |-> {}]
+(* expfw[s]: the addresses station s is configured to request (own call first, then the auxiliary addresses), when the  *)
+(* driver knows them; its ;FW line must list exactly these, in this order                                              *)
+VARIABLE expfw
+NoExp == [s \in Station |-> <<"?">>]
 
-TraceInit == TraceInitTL /\ Init /\ alt = Empty /\ fwd = NoFwd
+TraceInit == TraceInitTL /\ Init /\ alt = Empty /\ fwd = NoFwd /\ expfw = NoExp
 
-TAltered == IsEvent("Altered") /\ alt' = Put(alt, Ev.m, Ev.holds) /\ UNCHANGED <<vars, fwd>> /\ Consume
+TAltered == IsEvent("Altered") /\ alt' = Put(alt, Ev.m, Ev.holds) /\ UNCHANGED <<vars, fwd, expfw>> /\ Consume
+TExpectFw == IsEvent("ExpectFw") /\ expfw' = [expfw EXCEPT ![Ev.s] = Ev.addrs] /\ UNCHANGED <<vars, fwd, alt>> /\ Consume
 
 TQueue   == IsEvent("Queue") /\ Queue(Ev.s, Ev.m, Ev.policy, Ev.prec) /\ Consume
 TSession == IsEvent("Session") /\ NewSession(Ev.master, Ev.fault) /\ fwd' = NoFwd /\ Consume
@@ -42,6 +47,7 @@ TEndAll  == IsEvent("EndAll") /\ EndAll /\ Consume
 TUnit ==
     /\ IsEvent("Unit")
     /\ fwd' = IF Ev.kind = "Fw" THEN [fwd EXCEPT ![Ev.s] = SeqSet(Ev.addrsU)] ELSE fwd
+    /\ (Ev.kind = "Fw" /\ expfw[Ev.s] # <<"?">>) => Ev.addrsU = expfw[Ev.s]
     /\ LET e == Ev  s == Ev.s  k == Ev.kind IN
        \/ k = "Sid" /\ SidOK(e.b2, e.f, e.dollarLast) /\ HsLine(s, k, FALSE)
        \/ k \in {"Fw", "Pq", "Pr", "Pm"} /\ HsLine(s, k, FALSE)
@@ -61,6 +67,6 @@ TraceNextB == \/ (TSession \/ TUnit)
               \/ (UNCHANGED fwd /\ (TQueue \/ TCut \/ TPrepare \/ TOffer \/ THAnswer \/ TStore \/ TSetSent \/ TSetDef
                                      \/ TReturn \/ TClose \/ TEnd \/ TEndAll))
 
-TraceNext == TAltered \/ (UNCHANGED alt /\ TraceNextB)
-TraceSpec == TraceInit /\ [][TraceNext]_<<vars, tvars, alt, fwd>>
+TraceNext == TAltered \/ TExpectFw \/ (UNCHANGED <<alt, expfw>> /\ TraceNextB)
+TraceSpec == TraceInit /\ [][TraceNext]_<<vars, tvars, alt, fwd, expfw>>
 =============================================================================
